@@ -288,7 +288,8 @@ theorem mem_stitchAllP {s : Store} {b : Nat} {e : IndexEntry}
 /-- From "the chain's versions hold the same, and no version appears" to `ChainSame`. -/
 theorem chainSame_of_chainBelow {s s' : Store} (b : Nat)
     (hsame : ∀ c ∈ chainBelow s b, BandSame s s' c)
-    (hnone : ∀ b', b' < b → bandPresent s b' = false → bandPresent s' b' = false) :
+    (hnone : ∀ b', b' < b → bandPresent s b' = false → bandPresent s' b' = false)
+    (hlost : ∀ b', b' < b → bandPresent s b' = false → headLost s' b' = headLost s b') :
     ChainSame s s' b := by
   induction b with
   | zero => trivial
@@ -302,11 +303,16 @@ theorem chainSame_of_chainBelow {s s' : Store} (b : Nat)
       refine ⟨hsame b (List.mem_cons_self ..), fun ht => ?_⟩
       simp only [ht, Bool.false_eq_true, if_false] at hsame
       exact ih (fun c hc => hsame c (List.mem_cons_of_mem _ hc))
-        (fun b' hb' => hnone b' (Nat.lt_succ_of_lt hb'))
+        (fun b' hb' => hnone b' (Nat.lt_succ_of_lt hb')) (fun b' hb' => hlost b' (Nat.lt_succ_of_lt hb'))
     · have hh' : isFileP s (.bandHead b) = false := by simpa using hh
       simp only [hh', Bool.false_eq_true, if_false] at hsame ⊢
-      exact ⟨by rw [← hp]; exact hnone b (Nat.lt_succ_self b) (by rw [hp]; exact hh'),
-        ih hsame (fun b' hb' => hnone b' (Nat.lt_succ_of_lt hb'))⟩
+      have hps : bandPresent s b = false := by rw [hp]; exact hh'
+      have hps' : bandPresent s' b = false := hnone b (Nat.lt_succ_self b) hps
+      have hl := hlost b (Nat.lt_succ_self b) hps
+      rw [← headLost_eq s b hps, ← headLost_eq s' b hps'] at hl
+      exact ⟨by rw [← hp]; exact hps', hl,
+        ih hsame (fun b' hb' => hnone b' (Nat.lt_succ_of_lt hb'))
+          (fun b' hb' => hlost b' (Nat.lt_succ_of_lt hb'))⟩
 
 /-! ### `restoreP` depends on the blocks only through `blockContent` -/
 
